@@ -45,7 +45,7 @@ class Vector3(Vector):
             if arg.rank > 1 and arg._numer_[0] == 3:
                 arg = arg.split_items(1, Vector3)
 
-            arg = Vector3(arg)
+            arg = Vector3(arg, derivs=arg._derivs_)
             if recursive:
                 return arg
 
